@@ -446,6 +446,11 @@ class CommandMixin(object):
             cm.claim_refused = True
             self._no_others("C07", sub, "claim")
             return
+        was = self.retired_np.pop((app, name), None)
+        if was is not None and told is not None and told == was and not errored:
+            self.v("C03", "new-incarnation-gets-new-mailbox", ev,
+                   "nameplate %r was retired when mailbox %r was closed by its last side (answered 'closed'), "
+                   "yet the next claimant of the name is led to that same mailbox" % (name, was))
         if not existed and told is not None and self.lost_np.get((app, name)) not in (None, told):
             self.v("C03", "same-mailbox-while-nameplate-lives", ev,
                    "nameplate %r led to mailbox %r, was removed by a sweep although it was in use, and now "
@@ -792,6 +797,11 @@ class CommandMixin(object):
             # from here on, whether or not the rows were seen to go (C01: a later open
             # must start empty)
             ev.notes["_expect_deleted"] = k
+            # ... and so is every nameplate that led to it (C03: the next claimant of the
+            # name starts a new incarnation with a mailbox of its own)
+            for n in sub.pre.nameplates:
+                if n.app == app and n.mailbox == mid:
+                    self.retired_np[(app, n.name)] = mid
         self._usage_check(ev, sub.pre, sub.post, sub.upre, sub.upost, now, False, transient, issuer_app=app,
                           closing=(app, mid, side, msg.get("mood")))
         if rec is not None:
@@ -844,6 +854,17 @@ class CommandMixin(object):
                     self.subs[k].append(cid)
                 self.sub_epoch[cid] = self.epoch
                 self._touch(k, now, True)
+                if mbr is None:
+                    # the open was answered but no such row exists: if the server filed the mailbox
+                    # under another spelling of the app id, the subscription protects that row
+                    al = [k2 for k2 in self.mb_inc if k2[1] == mid and k2 != k and sub.post.mb(*k2) is not None
+                          and any(r.side == side for r in sub.post.mb(*k2).sides)]
+                    if len(al) == 1:
+                        self.subs.setdefault(al[0], [])
+                        if cid not in self.subs[al[0]]:
+                            self.subs[al[0]].append(cid)
+                        self._touch(al[0], now, True)
+                        self.probes["subscription_filed_elsewhere"] += 1
             elif rec[0] == "close":
                 _, app, mid, side, cid = rec
                 # a close by a side that had not opened performs an open first:
